@@ -199,7 +199,7 @@ func init() {
 		ID:    "C10",
 		Level: "model_checking",
 		Rule: "phase 1: BFS over the real role-update/accept handlers enumerates every assignment of the 4 roles + pending slot over U (|U|=3 quick, 4 thorough); " +
-			"phase 2: in every such state each of the 18 privileged transaction types is submitted by every account of U and by an outsider; " +
+			"phase 2: in every such state each of the 18 privileged transaction types (role updates with every account of U and an outsider as the new holder) is submitted by every account of U and by an outsider; " +
 			"distinct_nontrivial counts distinct (role state, transaction type, submitter) triples whose submitter holds some role or is the previous holder",
 		Assumptions: []string{"submitter strings are canonical bech32 (what a signer field can contain)", "parameters of the probes are valid in the fixed base configuration, so an authorised submission must succeed"},
 		Jobs:        func(tier string) []Job { return rolesJobs("C10", tier, c10Phase2) },
@@ -271,7 +271,25 @@ func c10Phase2(r *Run, scn Scenario, U []Account, states []*Node, known map[stri
 			return
 		}
 		m := n.Model.(rolesModel)
-		for _, tx := range AdminTxs {
+		// the catalogue, plus every role update with every account of the universe as the new holder
+		txs := append([]AdminTx{}, AdminTxs...)
+		for _, nu := range U {
+			nu := nu
+			txs = append(txs,
+				AdminTx{"UpdateOwner", RoleOwner, func(f string) Action {
+					return Act("updateOwner("+nu.Name+") by "+acctName(f), &cctptypes.MsgUpdateOwner{From: f, NewOwner: nu.Str})
+				}},
+				AdminTx{"UpdateAttesterManager", RoleOwner, func(f string) Action {
+					return Act("updateAttesterManager("+nu.Name+") by "+acctName(f), &cctptypes.MsgUpdateAttesterManager{From: f, NewAttesterManager: nu.Str})
+				}},
+				AdminTx{"UpdatePauser", RoleOwner, func(f string) Action {
+					return Act("updatePauser("+nu.Name+") by "+acctName(f), &cctptypes.MsgUpdatePauser{From: f, NewPauser: nu.Str})
+				}},
+				AdminTx{"UpdateTokenController", RoleOwner, func(f string) Action {
+					return Act("updateTokenController("+nu.Name+") by "+acctName(f), &cctptypes.MsgUpdateTokenController{From: f, NewTokenController: nu.Str})
+				}})
+		}
+		for _, tx := range txs {
 			holder, has := m.holder(tx.Role)
 			for _, s := range subs {
 				a := tx.Make(s.Str)
@@ -284,7 +302,7 @@ func c10Phase2(r *Run, scn Scenario, U []Account, states []*Node, known map[stri
 				path := append(append([]Action{}, n.Path...), a)
 				holdsOther := s.Str == m.Owner || s.Str == m.AttMgr || s.Str == m.Pauser || s.Str == m.TokenCtl || (m.HasPending && s.Str == m.Pending)
 				if holdsOther || auth {
-					r.Distinct(fmt.Sprintf("%s|%s|%s", m.key(), tx.Name, s.Name))
+					r.Distinct(fmt.Sprintf("%s|%s|%s", m.key(), a.Desc, s.Name))
 				}
 				switch {
 				case o.Panicked:
